@@ -71,6 +71,7 @@ type Units struct {
 	cellPar map[ssa.Value]*ssa.Parameter // Alloc/FreeVar cell holding a func-typed parameter
 	changed bool
 	fns     []*ssa.Function
+	ret     map[*ssa.Function][]ukind // inferred result kinds of library functions
 	Sinks   []USink
 }
 
@@ -217,7 +218,7 @@ func RunUnits(p *Prog) *Units {
 		fmt.Sscanf(v, "%d", &uShift)
 	}
 	u := &Units{p: p, k: map[ssa.Value]ukind{}, acc: map[ssa.Value]ukind{}, dynArgs: map[*ssa.Parameter][]ukind{},
-		cellPar: map[ssa.Value]*ssa.Parameter{}}
+		cellPar: map[ssa.Value]*ssa.Parameter{}, ret: map[*ssa.Function][]ukind{}}
 	for fn := range p.modFunc {
 		if topFn(fn).Origin() != nil {
 			continue // instances repeat their generic origin
@@ -409,6 +410,13 @@ func (u *Units) analyse(fn *ssa.Function, check bool) {
 					if k == uBot && x.Index == 0 && len(call.Call.Args) > 0 {
 						k = u.bitmapQuery(&call.Call)
 					}
+					if k == uBot {
+						if sc := call.Call.StaticCallee(); sc != nil {
+							if rk := u.ret[originOf(sc)]; x.Index < len(rk) {
+								k = rk[x.Index]
+							}
+						}
+					}
 					u.k[x] = k
 				}
 				if lk, ok := x.Tuple.(*ssa.Lookup); ok && x.Index == 0 {
@@ -424,6 +432,32 @@ func (u *Units) analyse(fn *ssa.Function, check bool) {
 				cf := x.Fn.(*ssa.Function)
 				for i, bnd := range x.Bindings {
 					u.accSet(cf.FreeVars[i], u.val(bnd))
+				}
+			case *ssa.Return:
+				rk := u.ret[fn]
+				if rk == nil {
+					rk = make([]ukind, len(x.Results))
+					u.ret[fn] = rk
+				}
+				for i, res := range x.Results {
+					if i < len(rk) {
+						if n := ujoin(rk[i], u.val(res)); n != rk[i] {
+							rk[i] = n
+							u.changed = true
+						}
+					}
+				}
+			case *ssa.MakeSlice:
+				// a bitmap allocated with len(other) words has the other's granularity
+				if isBitmap(x.Type()) {
+					if c, ok := x.Len.(*ssa.Call); ok {
+						if b, ok := c.Call.Value.(*ssa.Builtin); ok && b.Name() == "len" {
+							switch k := u.val(c.Call.Args[0]); k {
+							case uBmBlock, uBmWhole, uBmDirty:
+								u.k[x] = k
+							}
+						}
+					}
 				}
 			case *ssa.IndexAddr:
 				if check {
@@ -568,8 +602,27 @@ func (u *Units) call(fn *ssa.Function, ins ssa.Instruction, cc *ssa.CallCommon, 
 				k = u.bitmapQuery(cc)
 			}
 		}
+		if k == uBot {
+			if sc := cc.StaticCallee(); sc != nil {
+				if rk := u.ret[originOf(sc)]; len(rk) == 1 {
+					k = rk[0]
+				}
+			}
+		}
 		if _, isTuple := v.Type().(*types.Tuple); !isTuple {
 			u.k[v] = k
+		}
+	}
+	// unexported library helpers: parameters take the kinds of the arguments at their call sites
+	if sc := cc.StaticCallee(); sc != nil && u.p.InLib(sc) && sc.Object() != nil && !sc.Object().Exported() && sc.Parent() == nil {
+		o := originOf(sc)
+		for i, a := range cc.Args {
+			if i >= len(o.Params) {
+				break
+			}
+			if k := u.val(a); k != uBot && k != uAny {
+				u.accSet(o.Params[i], k)
+			}
 		}
 	}
 	// the numeric writer closure handed to makeNumeric: func(buffer, idx, value) — idx is absolute
